@@ -145,11 +145,13 @@ fn key(k: u8) -> String {
 fn unkey(s: &str) -> Option<u8> {
     KEYS.iter().position(|k| *k == s).map(|i| i as u8)
 }
+/// Peer ids are the embedder's choice: an ordinary one and the two ends of the range.
+const PIDS: [u64; 3] = [100, u64::MAX, 0];
 fn pid(p: u8) -> PeerId {
-    PeerId(100 + p as u64)
+    PeerId(if (p as usize) < PIDS.len() { PIDS[p as usize] } else { 100 + p as u64 })
 }
 fn unpid(id: PeerId) -> u8 {
-    (id.0 - 100) as u8
+    PIDS.iter().position(|x| *x == id.0).map(|i| i as u8).unwrap_or_else(|| (id.0 - 100) as u8)
 }
 
 impl Sys {
